@@ -189,7 +189,22 @@ func runC01(c decodeCase, measure bool) (decodeCase, error) {
 			return c, fmt.Errorf("%s: %w", e, perr)
 		}
 		if measure && o.alloc > uint64(allocSlack+allocFactor*len(in)) {
-			return c, fmt.Errorf("%s allocated %d bytes for a %d-byte input (bound %d)", e, o.alloc, len(in), allocSlack+allocFactor*len(in))
+			// TotalAlloc is process-wide: a background allocation of the runtime (GC workers, timers)
+			// can fall into the window. A decoder that really over-allocates does so on every call,
+			// so the verdict is the minimum over repeated measurements.
+			least := o.alloc
+			for rep := 0; rep < 5 && least > uint64(allocSlack+allocFactor*len(in)); rep++ {
+				o2, perr2 := runEntry(c, e, in, true)
+				if perr2 != nil {
+					return c, fmt.Errorf("%s: %w", e, perr2)
+				}
+				if o2.alloc < least {
+					least = o2.alloc
+				}
+			}
+			if least > uint64(allocSlack+allocFactor*len(in)) {
+				return c, fmt.Errorf("%s allocated at least %d bytes in each of 6 measurements for a %d-byte input (bound %d)", e, least, len(in), allocSlack+allocFactor*len(in))
+			}
 		}
 		if o.err == nil {
 			if err := geometry(o, in); err != nil {
